@@ -227,6 +227,32 @@ def fam_cond(E, shapes, xk, yk, zk, nchanges=3, nwaiters=1, real=False, fault_ki
                      shape, (kx, ky, kz), i))
 
 
+def fam_float_time(E):
+    """IEEE double dates: await (time >= d) / (time == d) / ~(time < d) entered at a float date
+    must return only when the condition is true"""
+    e = E.float('e', 0.0, 50.0)
+    d = E.float('d', 0.0, 100.0)
+    kind = E.pick('kind', 3)
+    log = Log()
+
+    async def waiter():
+        await (time + e)
+        cond = (time >= d) if kind == 0 else ((time == d) if kind == 1 else ~(time < d))
+        log('w', 'await')
+        await cond
+        t = now()
+        log('w', 'resume')
+        E.prove(bool(cond), 'condition-object-true-on-resume')
+        E.prove(GE(t, d) if kind != 1 else EQ(t, d), 'condition-true-on-resume',
+                ('resumed at %r for date %r', t, d))
+
+    out = simulate(waiter(), log=log, probe=Probe(check_clock=False))
+    bad = classify_run_exception(out.exc, allowed=())
+    E.prove(bad is None, 'run-ends-normally', bad)
+    if log.has('w', 'resume'):
+        E.reach('resumed')
+
+
 BASIC = ['X', '~X', 'X&Y', 'X|Y']
 FAMILIES = [
     Family('atoms', fam_cond,
@@ -258,6 +284,8 @@ FAMILIES = [
                          fault_kinds=[Fault.CANCEL, Fault.INTERRUPT, Fault.CLOSE]),
            reach=['resumed'],
            bounds='the activity that changes the atoms is cancelled / interrupted at (c,p)'),
+    Family('float_time', fam_float_time, quick=dict(), thorough=dict(), reach=['resumed'],
+           bounds='time conditions on IEEE double dates (z3 floating point)'),
     Family('two_waiters', fam_cond,
            quick=dict(shapes=['X&Y'], xk=[TR], yk=[F2], zk=[F2], nchanges=2, nwaiters=2),
            thorough=dict(shapes=['X', 'X&Y', 'X|Y'], xk=[F1, TR], yk=[F2, AFTER], zk=[F2],
